@@ -90,10 +90,7 @@ def gen_rule(rng, dedupe, need_key=False):
     return " and ".join(parts)
 
 
-def gen_case(rng, backend):
-    lt = rng.choice(["dedupe_only", "link_only", "link_and_dedupe"])
-    ntab = 1 if lt == "dedupe_only" else rng.choice([2, 2, 3])
-    names = ["ta", "tb", "tc"][:ntab]
+def gen_tables(rng, ntab):
     dom = {"a": ["x", "y", "xz", "x", None], "b": ["p", "q", "x", None], "c": ["u", "v", None, None]}
     tables = []
     for t in range(ntab):
@@ -103,13 +100,21 @@ def gen_case(rng, backend):
     for c in COLS:
         if all(r[c] is None for t in tables for r in t):
             tables[0][0][c] = dom[c][0]
-    dedupe = lt == "dedupe_only"
     for t in tables:
         for r in t:
             r["arr"] = rng.choice([None, [], ["u"], ["u", "v"], ["v", "w"], ["w"], ["u", "u"]])
             r["arr2"] = rng.choice([None, [], ["p"], ["p", "q"], ["q", "p"], ["q", "r", "p"], ["r"]])
     tables[0][0]["arr"] = ["u", "w"]
     tables[0][0]["arr2"] = ["q", "p"]
+    return tables
+
+
+def gen_case(rng, backend):
+    lt = rng.choice(["dedupe_only", "link_only", "link_and_dedupe"])
+    ntab = 1 if lt == "dedupe_only" else rng.choice([2, 2, 3])
+    names = ["ta", "tb", "tc"][:ntab]
+    tables = gen_tables(rng, ntab)
+    dedupe = lt == "dedupe_only"
     rule = gen_rule(rng, dedupe)
     rules = [gen_rule(rng, dedupe) for _ in range(rng.choice([1, 2, 2, 3, 3, 4]))]
     if backend == "duckdb":
@@ -131,7 +136,9 @@ def gen_case(rng, backend):
     return {"backend": backend, "link_type": lt, "names": names, "tables": tables,
             "rule": rule, "rules": rules,
             "top_rule": gen_rule(rng, dedupe, need_key=True), "n_largest": rng.choice([1, 2, 3, 5]),
-            "max_rows_limit": rng.choice([None, None, 10**6, 10**4])}
+            "max_rows_limit": rng.choice([None, None, 10**6, 10**4]),
+            # a sequence on ONE DatabaseAPI: the tables (registered by name) are replaced and the same calls repeated
+            "sequence": ({"tables2": gen_tables(rng, ntab), "cleanup": rng.random() < 0.5} if rng.random() < 0.45 else None)}
 
 
 def rule_sql(r):
@@ -153,29 +160,58 @@ def frames_of(case):
     return out
 
 
-def run_impl(case):
+def analysis_calls(api, case, parts=("count", "cum", "top")):
     from splink.blocking_analysis import (
         count_comparisons_from_blocking_rule,
         cumulative_comparisons_to_be_scored_from_blocking_rules_data,
         n_largest_blocks,
     )
-    api = su.make_api(case["backend"])
-    for name, d in zip(case["names"], frames_of(case)):
-        api.register_table(d, name)
     tabs = list(case["names"])
     res = {}
     kw = {} if case.get("max_rows_limit") is None else {"max_rows_limit": case["max_rows_limit"]}   # never hit
-    res["count"] = count_comparisons_from_blocking_rule(table_or_tables=tabs, blocking_rule=case["rule"],
-                                                        link_type=case["link_type"], db_api=api, **kw)
-    res["cum"] = cumulative_comparisons_to_be_scored_from_blocking_rules_data(
-        table_or_tables=tabs, blocking_rules=list(case["rules"]), link_type=case["link_type"], db_api=api, **kw
-    ).to_dict(orient="records")
-    res["top"] = n_largest_blocks(table_or_tables=tabs, blocking_rule=case["top_rule"], link_type=case["link_type"],
-                                  db_api=api, n_largest=case["n_largest"]).as_record_dict()
-    res["top_keys"] = count_comparisons_from_blocking_rule(table_or_tables=tabs, blocking_rule=case["top_rule"],
-                                                           link_type=case["link_type"], db_api=api,
-                                                           compute_post_filter_count=False)["equi_join_conditions_identified"]
+    if "count" in parts:
+        res["count"] = count_comparisons_from_blocking_rule(table_or_tables=tabs, blocking_rule=case["rule"],
+                                                            link_type=case["link_type"], db_api=api, **kw)
+    if "cum" in parts:
+        res["cum"] = cumulative_comparisons_to_be_scored_from_blocking_rules_data(
+            table_or_tables=tabs, blocking_rules=list(case["rules"]), link_type=case["link_type"], db_api=api, **kw
+        ).to_dict(orient="records")
+    if "top" in parts:
+        res["top"] = n_largest_blocks(table_or_tables=tabs, blocking_rule=case["top_rule"], link_type=case["link_type"],
+                                      db_api=api, n_largest=case["n_largest"]).as_record_dict()
+        res["top_keys"] = count_comparisons_from_blocking_rule(table_or_tables=tabs, blocking_rule=case["top_rule"],
+                                                               link_type=case["link_type"], db_api=api,
+                                                               compute_post_filter_count=False)["equi_join_conditions_identified"]
     return res
+
+
+def run_history(case):
+    """-> [(case_i, res_i, parts_i)]: the analysis calls on tables registered BY NAME on one DatabaseAPI and,
+    if the case has a sequence, the same calls again after the contents of those tables were replaced
+    (with or without delete_tables_created_by_splink_from_db() in between)."""
+    api = su.make_api(case["backend"])
+    for name, d in zip(case["names"], frames_of(case)):
+        api.register_table(d, name)
+    all_parts = ("count", "cum", "top")
+    out = [(case, analysis_calls(api, case), all_parts)]
+    seq = case.get("sequence")
+    if seq:
+        case2 = dict(case, tables=seq["tables2"], sequence=None, step={"tables_replaced": True, "cleanup": seq["cleanup"]})
+        for name, d in zip(case2["names"], frames_of(case2)):
+            api.register_table(d, name, overwrite=True)
+        if seq["cleanup"]:
+            api.delete_tables_created_by_splink_from_db()
+            parts = all_parts
+        else:
+            # without a cleanup the cumulative function and n_largest_blocks answer from the SQL-keyed table cache
+            # (known finding, dedicated witness); count_comparisons drops its result tables and must be fresh
+            parts = ("count",)
+        out.append((case2, analysis_calls(api, case2, parts), parts))
+    return out
+
+
+def run_impl(case):
+    return run_history(case)[-1][1]
 
 
 # ---------------------------------------------------------------------------- independent evaluation
@@ -308,11 +344,28 @@ def keys_term(ks):
     return coq_list([coq_opt(k, lambda t: coq_list([coq_Z(v) for v in t], "Z")) for k in ks], "(option (list Z))")
 
 
-def build(case, res):
+def build(case, res, parts=("count", "cum", "top")):
     """-> terms, labels, problems[(kind, detail)], obligations[(name, ok, detail)]"""
     ev = Eval(case)
+    try:
+        return _build(case, res, parts, ev)
+    finally:
+        ev.con.close()
+
+
+def _build(case, res, parts, ev):
     rank, dss = ranks_of(case, ev)
     terms, labels, bad, obl = [], [], [], []
+    if "count" in parts:
+        _build_count(case, res, ev, rank, dss, terms, labels, bad, obl)
+    if "cum" in parts:
+        _build_cum(case, res, ev, rank, dss, terms, labels, bad)
+    if "top" in parts:
+        _build_top(case, res, ev, terms, labels, bad)
+    return terms, labels, bad, obl
+
+
+def _build_count(case, res, ev, rank, dss, terms, labels, bad, obl):
     # ---------------- count_comparisons_from_blocking_rule
     cnt = res["count"]
     equi, filt = cnt["equi_join_conditions_identified"], cnt["filter_conditions_identified"]
@@ -335,6 +388,9 @@ def build(case, res):
         want_pre = len(L) * len(R)
     if pre != want_pre:
         bad.append(("pre_filter", f"rule {case['rule']!r} (keys [{equi}]): pre-filter count {pre} but sum over key values of left x right block sizes is {want_pre}"))
+
+
+def _build_cum(case, res, ev, rank, dss, terms, labels, bad):
     # ---------------- cumulative
     Lc, Rc, ltcc = sides(case, ev, False)
     mats = [ev.matrix(r) for r in case["rules"]]
@@ -358,6 +414,9 @@ def build(case, res):
             bad.append(("cumulative", f"rule {k}: cumulative_rows {cum} start {st} but running sum is {run}"))
         if ca != adm_pairs:
             bad.append(("cartesian", f"cartesian {ca} but there are {adm_pairs} admissible pairs"))
+
+
+def _build_top(case, res, ev, terms, labels, bad):
     # ---------------- n largest blocks
     kt = ev.keys(res["top_keys"])
     Lt, Rt, _ = sides(case, ev, True)
@@ -392,8 +451,6 @@ def build(case, res):
         for x in res["top"]:
             if int(x["block_count"]) != int(x["count_l"]) * int(x["count_r"]):
                 bad.append(("n_largest", f"block_count {x['block_count']} != {x['count_l']} * {x['count_r']}"))
-    ev.con.close()
-    return terms, labels, bad, obl
 
 
 # ---------------------------------------------------------------------------- known finding witness
@@ -444,3 +501,34 @@ def replay_witness_explode():
     s = SettingsCreator(link_type=w["link_type"], comparisons=[cl.ExactMatch("a")], blocking_rules_to_generate_predictions=[w["rule"]])
     want = len(su.linker([d], s, "duckdb").inference.predict().as_record_dict())
     return post != want, post, want
+
+
+WITNESS_STALE = {"link_type": "dedupe_only", "rule": "l.a = r.a", "table_name": "tt",
+                 "first": ["x", "x", "y", "z"], "second": ["x", "x", "x", "x", "x", "y"]}
+
+
+def replay_witness_stale(backend="duckdb"):
+    """named table replaced on one DatabaseAPI, no cleanup -> (reproduced, first, second, fresh)"""
+    from splink.blocking_analysis import cumulative_comparisons_to_be_scored_from_blocking_rules_data, n_largest_blocks
+    w = WITNESS_STALE
+
+    def frame(vals):
+        d = pd.DataFrame([{"unique_id": i, "a": v} for i, v in enumerate(vals)])
+        d["a"] = d["a"].astype("string")
+        return d
+
+    def run(api):
+        d = cumulative_comparisons_to_be_scored_from_blocking_rules_data(
+            table_or_tables=[w["table_name"]], blocking_rules=[w["rule"]], link_type=w["link_type"], db_api=api).to_dict(orient="records")
+        n = n_largest_blocks(table_or_tables=[w["table_name"]], blocking_rule=w["rule"], link_type=w["link_type"], db_api=api,
+                             n_largest=1).as_record_dict()
+        return [int(d[0]["row_count"]), int(d[0]["cartesian"]), int(n[0]["block_count"])]
+    api = su.make_api(backend)
+    api.register_table(frame(w["first"]), w["table_name"])
+    first = run(api)
+    api.register_table(frame(w["second"]), w["table_name"], overwrite=True)
+    second = run(api)
+    fresh_api = su.make_api(backend)
+    fresh_api.register_table(frame(w["second"]), w["table_name"])
+    want = run(fresh_api)
+    return second != want, first, second, want
